@@ -510,6 +510,63 @@ def g_dynamic_case(rng, cls, ragged, strong_first):
     return {"sources": srcs, "sensors": [{"pos": zero, "rot": zero, "pixel": pix, "left": False}]}
 
 
+HETERO_CLASSES = ["CylinderSegment", "Cylinder", "Cuboid", "Sphere", "Polyline", "Circle", "Tetrahedron", "Triangle",
+                  "TriangularMesh", "Dipole"]
+
+
+def hetero_variants(rng, cls):
+    """argument sets of one class, one per parameter REGION of that class's dispatch (section < 360 / full,
+    solid / hollow; axial / transverse / zero polarization; zero-length segments; zero excitation ...)"""
+    pol_kinds = [[0.0, 0.0, round(rng.uniform(0.2, 1), 3)], [round(rng.uniform(0.2, 1), 3), round(rng.uniform(-1, 1), 3), 0.0],
+                 [0.0, 0.0, 0.0], g_pol(rng)]
+    if cls == "CylinderSegment":
+        out = []
+        for arc in (rng.choice([60.0, 90.0, 200.0]), 360.0):
+            for r1 in (0.0, rng.choice([0.3, 0.5])):
+                p1 = rng.choice([0.0, -30.0, 45.0])
+                out.append({"pol": g_pol(rng), "dim": [r1, r1 + rng.choice([0.5, 1.0]), rng.choice([0.5, 1.0, 2.0]), p1, p1 + arc]})
+        return out
+    if cls == "Cylinder":
+        return [{"pol": q, "dim": [rng.choice([0.5, 1.0, 2.0]), rng.choice([0.5, 1.0, 2.0])]} for q in pol_kinds]
+    if cls == "Cuboid":
+        return [{"pol": q, "dim": [rng.choice([0.5, 1.0, 2.0]) for _ in range(3)]} for q in pol_kinds]
+    if cls == "Sphere":
+        return [{"pol": q, "dia": rng.choice([0.5, 1.0, 2.0])} for q in pol_kinds]
+    if cls == "Polyline":
+        a, b, c = rvec(rng), rvec(rng), rvec(rng)
+        return [{"cur": 1.5, "verts": [a, b, c]}, {"cur": -0.7, "verts": [a, a, b]},          # zero-length first segment
+                {"cur": 2.0, "verts": [b, c, c]}, {"cur": 0.0, "verts": [c, a, b]},            # zero-length last / zero current
+                {"cur": 1.0, "verts": [a, b, b, c]}, {"cur": 1.0, "verts": [c, c]}]            # ragged; only a zero-length segment
+    if cls == "Circle":
+        return [{"cur": 1.2, "dia": 1.0}, {"cur": 0.0, "dia": 2.0}, {"cur": -2.0, "dia": 0.0}, {"cur": 0.5, "dia": 0.5}]
+    if cls == "Tetrahedron":
+        return [{"pol": q, "verts": [[0, 0, 0], [1, 0, 0], [0, 1, 0], rvec(rng, 0.2, 1.0)]} for q in pol_kinds]
+    if cls == "Triangle":
+        return [{"pol": q, "verts": [[0, 0, 0], [1, 0, 0], [round(rng.uniform(-1, 1), 3), round(rng.uniform(0.3, 1), 3), 0]]}
+                for q in pol_kinds]            # the triangles lie in z = 0: axial = normal, transverse = in-plane polarization
+    if cls == "TriangularMesh":
+        return [dict(g_args(rng, cls), pol=q) for q in pol_kinds]
+    return [{"mom": q} for q in pol_kinds]
+
+
+def g_hetero_case(rng, cls):
+    """one vectorised group whose rows fall into DIFFERENT parameter regions of the class's dispatch, so
+    that every batch-level guard (np.any(mask), masked sub-batches) sees heterogeneous rows"""
+    vs = hetero_variants(rng, cls)
+    rng.shuffle(vs)
+    vs = vs[:rng.randint(2, min(4, len(vs)))]
+    srcs = []
+    for a in vs:
+        pos, rot = g_path(rng, 2)
+        srcs.append({"cls": cls, "args": a, "pos": pos, "rot": rot})
+    pts = [inside_point(rng, s, 0) for s in srcs if rng.random() < 0.7] + [rvec(rng, -3, 3) for _ in range(rng.randint(1, 2))]
+    if rng.random() < 0.5:
+        sens = [{"pos": [[0.0, 0.0, 0.0]], "rot": [[0.0, 0.0, 0.0]], "pixel": pts if len(pts) > 1 else pts[0], "left": False}]
+    else:
+        sens = [{"pos": [[0.0, 0.0, 0.0]], "rot": [[0.0, 0.0, 0.0]], "pixel": q, "left": False} for q in pts]
+    return {"sources": srcs, "sensors": sens}
+
+
 SPECIAL_CLASSES = ["CylinderSegment", "Cylinder", "Cuboid", "Sphere", "Circle", "Polyline", "Triangle"]
 
 
